@@ -122,6 +122,7 @@ def evalLine (line : String) : String :=
   | ["serde_provider", ops, _root, _rv] => MiscDriver.serdeProvider ops
   | "det" :: _ => "not-modelled"
   | "soak" :: _ => "not-modelled"
+  | "weak" :: _ => "not-modelled"
   | ["report", toks, _reg] => ReportDriver.reportLine toks
   | ["collapse", toks, _reg, _root, _rv] => ReportDriver.collapseLine toks
   | ["inv2", vs, dbg, root, rv, _reg, _strat, _fault, answers] =>
